@@ -2,6 +2,7 @@ package rangeproof
 
 import (
 	"fmt"
+	"math"
 	"strconv"
 
 	"github.com/privacybydesign/gabi/big"
@@ -227,6 +228,11 @@ func newWithParams(index, sign int, a uint, k *big.Int, split SquareSplitter, nS
 	}
 	if sign != 1 && sign != -1 {
 		return nil, ErrUnsupportedSign
+	}
+	if a > math.MaxInt64 {
+		// the factor enters the proof relation as a signed machine integer; a larger factor
+		// would wrap around, and the relation would be about another factor than the stated one
+		return nil, errors.New("factor too large")
 	}
 
 	var exp *big.Int
